@@ -812,7 +812,12 @@ func postData(req *http.Request, logBody bool) (*PostData, error) {
 
 		vs, err := url.ParseQuery(string(body))
 		if err != nil {
-			return nil, err
+			// A body that does not parse as a form is logged as it is rather than failing the
+			// exchange: an error returned from here ends up as a Warning header on the
+			// forwarded request.
+			log.Errorf("har: cannot parse form body: %v", err)
+			pd.Text = string(body)
+			break
 		}
 
 		for n, vs := range vs {
